@@ -22,7 +22,7 @@ enum Val {
     W32(String),   // a 32-bit word: Lean term of type BitVec 32
     SN(String),    // a u64 parameter used as a count / size: Lean variable of type Nat (its word is `BitVec.ofNat 64 n`)
     SE(String),    // a u64 value computed from such a parameter: Lean term of type Nat (already reduced mod 2^64)
-    PtrMut(String), // `arr.as_mut_ptr()`: the environment entry a store intrinsic writes
+    PtrMut(String, usize), // `arr.as_mut_ptr()` (+ `.add(n)` in units of the stored vector): the environment entry a store intrinsic writes
     Ptr(Vec<Val>), // `[..].as_ptr()`: the pointed-to array (argument of a load intrinsic)
     Unit,
 }
@@ -361,11 +361,32 @@ impl<'a> Ex<'a> {
             ("vdupq_n_u8", "Neon.vdupq_n_u8", "B"), ("vdupq_n_u64", "Neon.vdupq_n_u64", "Q"), ("vsetq_lane_u32", "Neon.vsetq_lane_u32", "DRI"),
             ("vextq_u8", "Neon.vextq_u8", "RRI"), ("vshlq_u32", "Neon.vshlq_u32", "RR"),
         ];
+        if matches!(name, "_mm_storel_epi64" | "_mm_storeu_si128" | "_mm256_storeu_si256") && args.len() == 2 {
+            // stores through a pointer to a local u64 / [u64; N]: element i of the destination becomes lane i of the register
+            let v = self.deref_val(args[1].clone())?;
+            let w = self.word(&v)?;
+            let Val::PtrMut(k, off) = &args[0] else { return Err(format!("{name} destination")) };
+            let (lanes, f): (Vec<String>, usize) = match name {
+                "_mm_storel_epi64" => (vec![format!("(X86.storel_epi64 {w})")], 1),
+                "_mm_storeu_si128" => (vec![format!("(X86.storeu_si128 {w}).1"), format!("(X86.storeu_si128 {w}).2")], 2),
+                _ => (vec![format!("(X86.storeu_si256 {w}).1"), format!("(X86.storeu_si256 {w}).2.1"), format!("(X86.storeu_si256 {w}).2.2.1"), format!("(X86.storeu_si256 {w}).2.2.2")], 4),
+            };
+            match self.env.get_mut(k) {
+                Some(Val::Arr(a)) if a.len() >= off * f + f => {
+                    for (i, l) in lanes.into_iter().enumerate() {
+                        a[off * f + i] = Val::W(l);
+                    }
+                }
+                Some(slot @ Val::N(_)) if name == "_mm_storel_epi64" && *off == 0 => *slot = Val::W(lanes[0].clone()),
+                _ => return Err(format!("{name} destination is not a local of the right size")),
+            }
+            return Ok(Val::Unit);
+        }
         if name == "vst1q_u64" && args.len() == 2 {
             // store of the two 64-bit lanes through a pointer to a local `[u64; 2]`
             let v = self.deref_val(args[1].clone())?;
             let w = self.word(&v)?;
-            let Val::PtrMut(k) = &args[0] else { return Err("vst1q_u64 destination".into()) };
+            let Val::PtrMut(k, 0) = &args[0] else { return Err("vst1q_u64 destination".into()) };
             match self.env.get_mut(k) {
                 Some(Val::Arr(a)) if a.len() == 2 => {
                     a[0] = Val::W(format!("(Neon.vst1q_u64 {w}).1"));
@@ -456,6 +477,14 @@ impl<'a> Ex<'a> {
                         return Ok(Val::N((v[0] << 6) | (v[1] << 4) | (v[2] << 2) | v[3]));
                     }
                 }
+                if m.mac.path.segments.last().map(|s| s.ident == "addr_of_mut").unwrap_or(false) {
+                    let e: Expr = syn::parse2(m.mac.tokens.clone()).map_err(|e| format!("addr_of_mut!: {e}"))?;
+                    let (k, idx) = self.place_key(&e)?;
+                    if idx.is_some() {
+                        return Err("addr_of_mut! of an element".into());
+                    }
+                    return Ok(Val::PtrMut(k, 0));
+                }
                 Err("macro".into())
             }
             Expr::Unary(u) => match u.op {
@@ -500,6 +529,11 @@ impl<'a> Ex<'a> {
                 }
                 self.bin(&b.op, l, r)
             }
+            Expr::Repeat(r) => {
+                let x = self.eval(&r.expr)?;
+                let Val::N(n) = self.eval(&r.len)? else { return Err("repeat length".into()) };
+                Ok(Val::Arr(vec![x; n as usize]))
+            }
             Expr::Array(a) => {
                 let mut v = Vec::new();
                 for x in &a.elems {
@@ -525,7 +559,20 @@ impl<'a> Ex<'a> {
                     if idx.is_some() {
                         return Err("as_mut_ptr of an element".into());
                     }
-                    return Ok(Val::PtrMut(k));
+                    return Ok(Val::PtrMut(k, 0));
+                }
+                if name == "cast" && args.is_empty() {
+                    let v = self.eval(&m.receiver)?;
+                    if matches!(v, Val::PtrMut(..)) {
+                        return Ok(v);
+                    }
+                    return Err("cast of a non-pointer".into());
+                }
+                if name == "add" && args.len() == 1 {
+                    if let (Val::PtrMut(k, o), Val::N(n)) = (self.eval(&m.receiver)?, &args[0]) {
+                        return Ok(Val::PtrMut(k, o + *n as usize));
+                    }
+                    return Err("pointer arithmetic".into());
                 }
                 if name == "as_ptr" && args.is_empty() {
                     let v = self.eval(&m.receiver)?;
@@ -946,7 +993,7 @@ fn main() {
             let t = format!("theorem modularReduction_eq (x init : {regty}) : modularReduction x init = HH.{model}.modularReduction x init := rfl\n");
             Ok((d, t))
         })());
-        if untyped {
+        {
             for (fname, lean, ty, k) in [("finalize64", "out64", "BitVec 64", 4), ("finalize128", "out128", "BitVec 64 × BitVec 64", 6), ("finalize256", "out256", "BitVec 64 × BitVec 64 × BitVec 64 × BitVec 64", 10)] {
                 emit(fname, (|| {
                     let f = fns.get(fname).ok_or("missing")?;
